@@ -92,6 +92,33 @@ def generate(rng, tier, seed):
                     if len(ls) > 1:
                         c.fail(f"on one object the key block length depends on earlier wraps / the key length within the mask {m0}: lengths {sorted(ls)}")
                 yield c
+    # one object, the mask changing from call to call (explicit, then omitted, then another ...), the header given as an object or
+    # as text (loaded), re-keyed and re-loaded in between: every block is sized by the mask of ITS call
+    for ver, (bs, ksizes, ml) in VERS.items():
+        for alg in "TDA0H":
+            for as_text in (False, True):
+                c = Case(f"{ver}:{alg}:one-object-varying-mask", {"header_as_text": as_text})
+                h = make_header(rng, ver, [("KS", "1234")], alg=alg, reserved="00")
+                se = Session(c, rb(rng, ksizes[-1]), str(h) if as_text else h)
+                masks = [None, 8, None, 40, None, 0, 24, None, 64, None]
+                if rng.random() < 0.5:
+                    masks.reverse()
+                for k, mask in enumerate(masks):
+                    if k == 4:
+                        se.load(str(h))
+                    if k == 7:
+                        se.setkbpk(rb(rng, ksizes[-1]))
+                    kl = rng.choice([0, 5, 8, 16, 24, 30])
+                    w = se.wrap(rb(rng, kl), mask)
+                    if not w.ok:
+                        c.fail(f"wrap raised {w.err} (mask {mask}, key {kl})")
+                        continue
+                    m = eff_mask(alg, mask, kl)
+                    hl = tr31.Header().load(w.value)
+                    e = (len(w.value) - hl - 2 * ml) // 2
+                    if not (2 + m < e <= 2 + m + bs and e % bs == 0):
+                        c.fail(f"call {k} (mask {mask}, key {kl}): encrypted section holds {e} bytes, the effective mask of this call is {m}")
+                yield c
     # headers so large that the masked block is near the 9999-character limit: for a fixed header and mask every key within
     # the mask gives the same length - or every one of them is refused; never "the short keys still fit"
     for ver, (bs, ksizes, ml) in VERS.items():
